@@ -12,8 +12,8 @@ func init() {
 			"what GET users/{u} answers for a name without a credential (or on a server without user management) is don't-care unless it carries figures",
 		}, commonAssume...),
 		Parts: []partSpec{
-			{Name: "collector", Flavour: "race", TimeoutQ: m10, TimeoutT: m60},
-			{Name: "api", Flavour: "race", TimeoutQ: m10, TimeoutT: m60},
+			{Name: "collector", Flavour: "race", TimeoutQ: m10, TimeoutT: m60, Weight: 8},
+			{Name: "api", Flavour: "race", TimeoutQ: m10, TimeoutT: m60, Weight: 8},
 		},
 	}
 }
